@@ -177,6 +177,8 @@ func newOperator(expr parser.Expr, storage *engstore.SelectorPool, opts *query.O
 		}
 
 		if e.Param != nil {
+			hints.Grouping = nil
+			hints.By = false
 			paramOp, err = newOperator(e.Param, storage, opts, hints)
 			if err != nil {
 				return nil, err
@@ -196,6 +198,11 @@ func newOperator(expr parser.Expr, storage *engstore.SelectorPool, opts *query.O
 		return exchange.NewConcurrent(next, 2), nil
 
 	case *parser.BinaryExpr:
+		// Same as Prometheus: function and grouping hints are only meaningful
+		// for functions and aggregations over a single metric.
+		hints.Func = ""
+		hints.Grouping = nil
+		hints.By = false
 		if e.LHS.Type() == parser.ValueTypeScalar || e.RHS.Type() == parser.ValueTypeScalar {
 			return newScalarBinaryOperator(e, storage, opts, hints)
 		}
@@ -203,6 +210,9 @@ func newOperator(expr parser.Expr, storage *engstore.SelectorPool, opts *query.O
 		return newVectorBinaryOperator(e, storage, opts, hints)
 
 	case *parser.ParenExpr:
+		// The grouping hint is only passed to a direct operand of an aggregation.
+		hints.Grouping = nil
+		hints.By = false
 		return newOperator(e.Expr, storage, opts, hints)
 
 	case *parser.StringLiteral:
@@ -210,6 +220,8 @@ func newOperator(expr parser.Expr, storage *engstore.SelectorPool, opts *query.O
 		return nil, errors.Wrapf(parse.ErrNotImplemented, "got: %s", e)
 
 	case *parser.UnaryExpr:
+		hints.Grouping = nil
+		hints.By = false
 		next, err := newOperator(e.Expr, storage, opts, hints)
 		if err != nil {
 			return nil, err
@@ -230,6 +242,8 @@ func newOperator(expr parser.Expr, storage *engstore.SelectorPool, opts *query.O
 		case *parser.NumberLiteral:
 			return scan.NewNumberLiteralSelector(model.NewVectorPool(stepsBatch), opts, t.Val), nil
 		}
+		hints.Grouping = nil
+		hints.By = false
 		next, err := newOperator(e.Expr, storage, opts.WithEndTime(opts.Start), hints)
 		if err != nil {
 			return nil, err
